@@ -1,7 +1,7 @@
 """debug helper: run one harness job in-process.  usage: onejob.py PROP HARNESS '{"params":..}' [shard_i shard_n]"""
 import sys, json, time, faulthandler
 faulthandler.dump_traceback_later(int(__import__('os').environ.get('DUMP_AFTER', '120')), exit=True)
-sys.path[:0]=['/verif','/repo']
+sys.path[:0]=['/verif', __import__('os').environ.get('VERIF_REPO','/repo')]
 from symx.run import run_job
 spec=dict(prop=sys.argv[1],harness=sys.argv[2],params=json.loads(sys.argv[3]),shard=[int(sys.argv[4]),int(sys.argv[5])] if len(sys.argv)>5 else None,query_timeout_s=20)
 r=run_job(spec)
